@@ -100,7 +100,7 @@ theorem evalA_and (ops : Ops V) (ρ : Nat → Inst V) (x y : Asrt V) :
 theorem evalA_lit (ops : Ops V) (ρ : Nat → Inst V) (b : Bool) : evalA ops ρ (.lit b) = b := rfl
 
 /-- **Chained comparisons**, same direction: `(x op₁ y) op₂ z` denotes `x op₁ y ∧ y op₂ z`. -/
-theorem chain_same_direction (ops : Ops V) (ρ : Nat → Inst V) (x y z : Node V) (op₁ op₂ : Cmp)
+theorem chain_same_direction (ops : Ops V) (ρ : Nat → Inst V) (x y z : Node V) (op₁ op₂ : CmpOp)
     (h : op₁.ascending = op₂.ascending) :
     evalA ops ρ (chainCmp (buildCmp x op₁ y) op₂ z) =
       (evalA ops ρ (buildCmp x op₁ y) && evalA ops ρ (buildCmp y op₂ z)) := by
@@ -109,7 +109,7 @@ theorem chain_same_direction (ops : Ops V) (ρ : Nat → Inst V) (x y z : Node V
 /-- What the code does for a chain that changes direction — recorded as it is: `(x < y) > z`
 continues from `x`, not from `y` (reflected comparisons make the last operand ambiguous, the
 library supports monotone chains only; the generator produces monotone chains). -/
-theorem chain_mixed_direction (ops : Ops V) (ρ : Nat → Inst V) (x y z : Node V) (op₁ op₂ : Cmp)
+theorem chain_mixed_direction (ops : Ops V) (ρ : Nat → Inst V) (x y z : Node V) (op₁ op₂ : CmpOp)
     (h : op₁.ascending ≠ op₂.ascending) :
     evalA ops ρ (chainCmp (buildCmp x op₁ y) op₂ z) =
       (evalA ops ρ (buildCmp x op₁ y) && evalA ops ρ (buildCmp x op₂ z)) := by
